@@ -130,6 +130,8 @@ def configs(tier):
     out.append(("lev", {"K": 300}))
     out.append(("ord", {}))
     out.append(("num", {}))
+    out.append(("process_state", {"tag": "p"}))
+    out.append(("process_state", {"tag": "q", "reverse": True}))
     for a, b, de in itertools.product((0.0, 1.0, 3.0), (0.0, 1.0, 2.0), (1.0, 0.5, 2.0)):
         if tier == "quick" and (a, b) in ((0.0, 0.0), (3.0, 2.0) if de == 1.0 else ()):
             continue
@@ -305,6 +307,52 @@ class Runner:
                     self.res["violations"].append({"msg": f"[num SortedSet] d({a},{b}) = {v1} but {v2} from a list",
                                                    "case": {"cfg": "num-sortedset", "a": a, "b": b}})
 
+    def run_process_state(self, tag, reverse=False):
+        """Process-level state: pairs of configurations that share part of their description (same labels, other
+        positions / matrix / delta_empty; same parameters, other component) are built one after the other in the
+        same process, then BOTH are evaluated - a kernel or matrix cached under a too coarse key would be served to
+        the second instance.  `tag` makes the label names unique per task, `reverse` swaps the construction order."""
+        L3 = [f"{tag}n", f"{tag}m", f"{tag}z"]
+        L4 = [f"{tag}a", f"{tag}b", f"{tag}c", f"{tag}d"]
+        m1 = [[0.0, 0.2, 0.9], [0.2, 0.0, 0.5], [0.9, 0.5, 0.0]]
+        m2 = [[0.0, 0.7, 0.1], [0.7, 0.0, 0.3], [0.1, 0.3, 0.0]]
+        pairs = [
+            ({"k": "ord", "labels": L3, "p": [1.0, 2.0, 10.0]}, {"k": "ord", "labels": L3, "p": [5.0, 0.0, 1.0]}),
+            ({"k": "ord", "labels": L3}, {"k": "ord", "labels": [L3[2], L3[0], L3[1]]}),
+            ({"k": "ord", "labels": L4, "de": 1.0}, {"k": "ord", "labels": L4, "de": 0.25}),
+            ({"k": "pre", "labels": L3, "matrix": m1}, {"k": "pre", "labels": L3, "matrix": m2}),
+            ({"k": "pre", "labels": L3, "matrix": m1, "de": 2.0}, {"k": "pre", "labels": L3, "matrix": m1, "de": 0.5}),
+            ({"k": "lev", "labels": L4, "de": 1.0}, {"k": "lev", "labels": L4, "de": 3.0}),
+            ({"k": "lev", "labels": L4}, {"k": "lev", "labels": L4 + [f"{tag}abcd"]}),
+            ({"k": "num", "labels": ["1", "2", "10"]}, {"k": "num", "labels": ["1", "2", "10", "40"]}),
+            ({"k": "pos", "de": 1.0}, {"k": "pos", "de": 0.125}),
+            ({"k": "abs", "de": 1.0}, {"k": "abs", "de": 0.125}),
+            ({"k": "comb", "a": 1.0, "b": 1.0, "de": 1.0, "cat": {"k": "ord", "labels": L3}},
+             {"k": "comb", "a": 1.0, "b": 1.0, "de": 1.0, "cat": {"k": "pre", "labels": L3, "matrix": m2}}),
+            ({"k": "comb", "a": 1.0, "b": 1.0, "de": 1.0}, {"k": "comb", "a": 1.0, "b": 1.0, "de": 0.5}),
+            ({"k": "comb", "a": 2.0, "b": 1.0, "de": 1.0}, {"k": "comb", "a": 1.0, "b": 2.0, "de": 1.0}),
+        ]
+        from ..oracles import pair_fn
+        for ra, rb in pairs:
+            if reverse:
+                ra, rb = rb, ra
+            da = build_dissim(ra)
+            db = build_dissim(rb)
+            for r, d in ((rb, db), (ra, da), (rb, db)):
+                labs = r.get("labels") or (r.get("cat") or {}).get("labels") or ["x", "y", None]
+                if r["k"] == "num":
+                    labs = r["labels"]
+                pairs_uv = [((s1, e1, l1), (s2, e2, l2)) for (s1, e1) in SEGS[::4] for (s2, e2) in SEGS[1::5]
+                            for l1 in labs for l2 in labs]
+                try:
+                    f, _ = pair_fn(r)
+                except Exception:  # noqa
+                    f = None
+                if r["k"] in ("lev",) or (r["k"] == "comb" and (r.get("cat") or {}).get("k") == "lev"):
+                    f = None
+                check_pairs(self.pa, self.res, f"process-state {r['k']} {('p=' + str(r['p'])) if 'p' in r else ''} "
+                                               f"de={r.get('de', 1.0)} after {'B' if r is ra else 'A'}", r, d, pairs_uv, f)
+
     def run_comb(self, a, b, de):
         labels = ["x", "y", "z"]
         comps = [("cat default", None), ("cat abs same de", {"k": "abs", "de": de}),
@@ -362,6 +410,9 @@ def replay(case):
         R.run_ord()
     elif name.startswith("num"):
         R.run_num()
+    elif name.startswith("process-state"):
+        R.run_process_state("p")
+        R.run_process_state("q", reverse=True)
     elif name.startswith("comb"):
         r = case["recipe"]
         R.run_comb(r["a"], r["b"], r["de"])
